@@ -50,8 +50,21 @@ func entryChildBytes(r *hx.Rng, k int) []byte {
 	return largeBoxBytes("LRGE", r.Bytes(r.Intn(7), nil)) // an unknown child with a 16-byte header
 }
 
+type entryParts struct {
+	kind, typ, orig string
+	fixed           []byte
+	children        [][]byte
+}
+
+func (p entryParts) bytes() []byte { return boxBytes(p.typ, append([][]byte{p.fixed}, p.children...)...) }
+
 // genEntryBytes: a protected sample entry from the syntax; returns kind ("v" / "a") and the bytes
 func genEntryBytes(r *hx.Rng) (string, []byte) {
+	p := genEntryParts(r)
+	return p.kind, p.bytes()
+}
+
+func genEntryParts(r *hx.Rng) entryParts {
 	visual := r.Bool()
 	kind, typ, nfixed := "a", "enca", 28
 	orig := []string{"mp4a", "ac-3", "ec-3", "Opus"}[r.Intn(4)]
@@ -109,7 +122,86 @@ func genEntryBytes(r *hx.Rng) (string, []byte) {
 			children = append(children, entryChildBytes(r, r.Intn(5)))
 		}
 	}
-	return kind, boxBytes(typ, append([][]byte{fixed}, children...)...)
+	return entryParts{kind: kind, typ: typ, orig: orig, fixed: fixed, children: children}
+}
+
+// searchEntry: the property on sample entries written from the syntax: RemoveEncryption + Encode must give the
+// entry that plain decode + encode gives for the same bytes with the 4cc restored (from the frma of the LAST sinf)
+// and that sinf cut out - every other byte (typed fixed fields, children before and after the sinf, 16-byte-header
+// children) identical.  The reference is computed on bytes by the harness, not through RemoveEncryption.
+func searchEntry(r *hx.Rng, n int) {
+	for i := 0; i < n; i++ {
+		p := genEntryParts(r)
+		last := -1
+		for j, c := range p.children {
+			if string(c[4:8]) == "sinf" {
+				last = j
+			}
+		}
+		if last < 0 || (p.typ != "encv" && p.typ != "enca") {
+			continue
+		}
+		// frma of that sinf, read from its bytes
+		sinf := p.children[last]
+		frma := ""
+		for _, b := range walkBoxes(sinf, 8, len(sinf)) {
+			if b.typ == "frma" && b.end-b.start == 12 {
+				frma = string(sinf[b.start+8 : b.end])
+			}
+		}
+		if frma == "" || (p.kind == "v" && p.fixed[42] > 31) {
+			continue
+		}
+		evals++
+		wit := p.kind + " " + hx.Hex(p.bytes())
+		// the reference is decoded under the entry's encv / enca name (any frma 4cc then decodes as a sample entry of the
+		// same kind) and renamed on the bytes
+		ref := entryParts{kind: p.kind, typ: p.typ, fixed: p.fixed}
+		for j, c := range p.children {
+			if j != last {
+				ref.children = append(ref.children, c)
+			}
+		}
+		reencode := func(raw []byte, remove bool) (out []byte, class string) {
+			var err error
+			var buf bytes.Buffer
+			pp := hx.Try(func() {
+				var box mp4.Box
+				box, err = mp4.DecodeBox(0, bytes.NewReader(raw))
+				if err != nil {
+					return
+				}
+				if remove {
+					switch x := box.(type) {
+					case *mp4.VisualSampleEntryBox:
+						_, err = x.RemoveEncryption()
+					case *mp4.AudioSampleEntryBox:
+						_, err = x.RemoveEncryption()
+					}
+					if err != nil {
+						return
+					}
+				}
+				err = box.Encode(&buf)
+			})
+			return buf.Bytes(), classOf(pp, err)
+		}
+		want, c1 := reencode(ref.bytes(), false)
+		got, c2 := reencode(p.bytes(), true)
+		if c1 == "ok" && len(want) >= 8 {
+			copy(want[4:8], frma)
+		}
+		if c1 != "ok" {
+			continue // the clear entry itself does not decode + encode: not a protection matter
+		}
+		if c2 != "ok" {
+			fail("mp4.SampleEntry.RemoveEncryption", "entry-"+c2, wit, "a protected sample entry whose clear form decodes is not unprotected")
+			continue
+		}
+		if !bytes.Equal(got, want) {
+			fail("mp4.SampleEntry.RemoveEncryption", "entry-bytes-differ", wit, "after RemoveEncryption the entry differs from the clear entry in more than 4cc / size / sinf: got "+trunc(hx.Hex(got), 400)+" want "+trunc(hx.Hex(want), 400))
+		}
+	}
 }
 
 func (e *env) entryFixedCases(r *hx.Rng, n int, next func() string) {
